@@ -143,7 +143,15 @@ func newNode(dir string) (*node, error) {
 }
 
 func (n *node) close() {
-	_ = n.db.Close(context.Background())
+	done := make(chan struct{})
+	go func() {
+		_ = n.db.Close(context.Background())
+		close(done)
+	}()
+	select {
+	case <-done:
+	case <-time.After(3 * time.Second): // a transaction that died by panic still holds the lock: leave the store behind
+	}
 	_ = os.Remove(n.path)
 }
 
@@ -267,7 +275,25 @@ func (n *node) project(nm *namer, q queryPlan) *projection {
 		}
 		_, _ = res("nil", nil)
 		_, _ = res("empty", &resolver.ResolveMetadata{})
-		_, _ = res("allow", &resolver.ResolveMetadata{AllowDeactivated: true})
+		if lm, err := res("allow", &resolver.ResolveMetadata{AllowDeactivated: true}); err == nil && !q.full {
+			// keep the versions below the latest one at hand (table only, not an answer that is compared): a differing
+			// previousHash can then be traced to the version that differs
+			for i := 0; i < 8 && lm != nil && lm.PreviousHash != nil; i++ {
+				h := *lm.PreviousHash
+				d2, m2, e2 := st.Resolve(id, &resolver.ResolveMetadata{Hash: &h, AllowDeactivated: true})
+				if e2 != nil {
+					break
+				}
+				a := nm.answer(d2, m2, nil)
+				b, _ := json.Marshal(a)
+				hh := sha256.Sum256(b)
+				p.Table["aux:"+hex.EncodeToString(hh[:8])] = a
+				if m2.PreviousHash != nil && m2.PreviousHash.Equals(h) {
+					break
+				}
+				lm = m2
+			}
+		}
 		for _, tm := range q.times {
 			t := sigTime(tm)
 			_, _ = res(fmt.Sprintf("time:%d", tm), &resolver.ResolveMetadata{ResolveTime: &t})
@@ -532,6 +558,19 @@ func (sr *storeRunner) once(sc script, scn scen, run int, res *result) (runInfo,
 			}
 			nDocs++
 			hd := w.heads(dn, arrived)
+			// the statement speaks about parallel updates and joins of histories that are there: while a referenced
+			// transaction of the DID is still missing only "same answer for every order" is demanded (pairwise oracle)
+			closed := true
+			for _, e := range evs {
+				for _, p := range w.tb.T[e].Prevs {
+					if w.tb.T[p].Did == dn && !arrived[p] {
+						closed = false
+					}
+				}
+			}
+			if !closed {
+				hd = la.Src
+			}
 			if strings.Join(la.Src, ",") != strings.Join(hd, ",") {
 				viol(i, "heads", "sources", fmt.Sprintf("DID %s: source transactions %v, open branches %v", dn, la.Src, hd))
 			}
@@ -864,8 +903,24 @@ func (ar *ambRunner) refAuthorised(n *node, c *ctx, accepted []hash.SHA256Hash) 
 	return false, "signing key is not a capabilityInvocation key of any controller of the succeeded version"
 }
 
-// receive: what a node does with a transaction + payload from the network: DAG signature verifier, then the vdr subscriber
+// receive runs receiveNow under a watchdog: code that panicked inside a store transaction may leave the store locked
 func receive(n *node, c *ctx) (verdict string, stage string, detail string) {
+	type out struct{ v, s, d string }
+	ch := make(chan out, 1)
+	go func() {
+		v, s, d := receiveNow(n, c)
+		ch <- out{v, s, d}
+	}()
+	select {
+	case o := <-ch:
+		return o.v, o.s, o.d
+	case <-time.After(30 * time.Second):
+		panic(fmt.Sprintf("receive(%s/%s) blocked for 30 s", c.name, c.df))
+	}
+}
+
+// receiveNow: what a node does with a transaction + payload from the network: DAG signature verifier, then the vdr subscriber
+func receiveNow(n *node, c *ctx) (verdict string, stage string, detail string) {
 	defer func() {
 		if r := recover(); r != nil {
 			verdict, detail = "panic", fmt.Sprintf("%v @ %s", r, panicSite(string(debug.Stack())))
@@ -1076,8 +1131,8 @@ func (ar *ambRunner) run(sc script) (res result) {
 			res.Error = err.Error()
 			return res
 		}
-		if v == "accepted" && j < len(sc.Probes)-1 {
-			// the probe changed the state: back to the state of the path
+		if (v == "accepted" || v == "panic") && j < len(sc.Probes)-1 {
+			// the probe changed the state (or died somewhere inside): back to the state of the path on a fresh store
 			if err := replay(false); err != nil {
 				res.Error = err.Error()
 				return res
